@@ -98,13 +98,22 @@ func writeEvidence(prop, tier string, seed int, reg *Registry, ld *Loaded, runs 
 		fl = append(fl, f)
 	}
 	sort.Strings(fl)
-	var kf []string
+	kf := []string{}
 	for k := range knownSeen {
 		kf = append(kf, k)
 	}
 	sort.Strings(kf)
 	ps := reg.Props[prop]
-	assumptions := append([]string{}, ps.Assumptions...)
+	assumptions := []string{
+		"A-BOUNDS: nothing is claimed outside the per-harness bounds listed below (message sizes, script lengths, number of streams/tunnels, operation sequences, delay bound of schedules)",
+		"A-SC: sync/atomic is sequentially consistent; between two synchronisation operations of the package's own code a thread runs atomically (exact for data-race free executions; scheduling points are placed before every synchronisation operation and after every releasing one)",
+		"A-STUB: environment contracts of the engine (sync, atomic, channels, fmt, errors.Is/As, proto.Marshal/Unmarshal/Clone carrying payload bytes unchanged, reflect as used by Invoke, context.WithTimeout as cancel context + recorded duration); context/list/strconv/strings/metadata/status/grpchan run from their real SSA bodies",
+		"A-CARRIER: the carrier stream, peers, handlers and credentials are harness doubles: reliable in-order delivery or failure",
+		"A-FRAME: frames have the shape protobuf unmarshalling yields (a populated oneof wrapper points to a non-nil message)",
+		"A-MAPORDER: no dependence on Go's map iteration order (maps are iterated in insertion order)",
+		"A-COMPOSE: the end-to-end statement follows from the unit obligations by the paper argument of DESIGN.md section 3",
+	}
+	assumptions = append(assumptions, ps.Assumptions...)
 	for _, r := range runs {
 		if b := r.spec.Bounds[tier]; b != "" {
 			assumptions = append(assumptions, "bound "+r.name+": "+b)
@@ -141,6 +150,7 @@ func writeEvidence(prop, tier string, seed int, reg *Registry, ld *Loaded, runs 
 			"obligations":                   obTotal,
 			"discharged":                    obDischarged,
 			"known_findings_seen":           kf,
+			"exhaustive":                    allExhausted(runs),
 			"inconclusive":                  inconclusive,
 			"trusted_base":                  append([]string{"go/ssa + go/types (x/tools v0.29.0, go1.24.0)", "gosmt engine (this repository; validated by native concordance replays)", "z3 4.8.12 (primary), cvc5 1.0.x (fallback on unknown)"}, ps.Trusted...),
 		},
@@ -157,3 +167,13 @@ func writeEvidence(prop, tier string, seed int, reg *Registry, ld *Loaded, runs 
 }
 
 func round2(f float64) float64 { return float64(int(f*100+0.5)) / 100 }
+
+// allExhausted: every harness explored its bounded path tree completely.
+func allExhausted(runs []*harnessRun) bool {
+	for _, r := range runs {
+		if r.res == nil || !r.res.Exhausted {
+			return false
+		}
+	}
+	return true
+}
